@@ -10,7 +10,19 @@ import (
 func Setup_C06_schedules() { Setup_C01_exec() }
 
 // families with real fan-out: several resolver-backed siblings and lists
-var c06Families = []int{3, 4, 5, 7, 10, 11}
+var c06Families = c06Pick()
+
+// c06Pick selects the families with real fan-out (lists, several resolver-backed siblings, merged selections).
+func c06Pick() []int {
+	var r []int
+	for i, f := range c01Families {
+		q := f.query
+		if strings.Contains(q, "nodes {") || strings.Contains(q, "users {") || strings.Contains(q, "strict {") || strings.Contains(q, "friends {") {
+			r = append(r, i)
+		}
+	}
+	return r
+}
 
 // Harness_C06_schedules: the schedule is explored by the engine (every
 // choice among enabled tasks at a blocking point is a decision); on each
@@ -53,7 +65,7 @@ func Harness_C06_mutationSerial() {
 		}
 		return -1
 	}
-	c, a, b := idx("/Mutation.c"), idx("/Mutation.a"), idx("/Mutation.b")
+	c, a, b := idx("/Commands.c"), idx("/Commands.a"), idx("/Commands.b")
 	zzsym.Assert(c == 0, "first root field starts first")
 	zzsym.Assert(a > c && b > a, "root fields start in document order")
 	for i, k := range w.calls {
